@@ -49,12 +49,13 @@ type model struct {
 	maxStake  map[string]*big.Int
 	updates   int
 	creatorIn map[string]*big.Int // what the creator got back from the pool
+	rps       map[string]*big.Rat // exact per-share accumulator: sum over released blocks of rate/S
 }
 
 func newModel() *model {
 	return &model{funded: map[string]*big.Int{}, released: map[string]*big.Int{}, rate: map[string]*big.Int{},
 		ent: map[string]map[string]*big.Rat{}, paid: map[string]map[string]*big.Int{}, inter: map[string]int{},
-		stake: map[string]*big.Int{}, maxStake: map[string]*big.Int{}, creatorIn: map[string]*big.Int{}}
+		stake: map[string]*big.Int{}, maxStake: map[string]*big.Int{}, creatorIn: map[string]*big.Int{}, rps: map[string]*big.Rat{}}
 }
 
 func cpInt(m map[string]*big.Int) map[string]*big.Int {
@@ -68,7 +69,10 @@ func cpInt(m map[string]*big.Int) map[string]*big.Int {
 func (m *model) Clone() mc.Model {
 	c := &model{funded: cpInt(m.funded), released: cpInt(m.released), rate: cpInt(m.rate), refunded: m.refunded,
 		ent: map[string]map[string]*big.Rat{}, paid: map[string]map[string]*big.Int{}, inter: map[string]int{},
-		stake: cpInt(m.stake), maxStake: cpInt(m.maxStake), updates: m.updates, creatorIn: cpInt(m.creatorIn)}
+		stake: cpInt(m.stake), maxStake: cpInt(m.maxStake), updates: m.updates, creatorIn: cpInt(m.creatorIn), rps: map[string]*big.Rat{}}
+	for d, v := range m.rps {
+		c.rps[d] = new(big.Rat).Set(v)
+	}
 	for f, mm := range m.ent {
 		c.ent[f] = map[string]*big.Rat{}
 		for d, v := range mm {
@@ -118,6 +122,9 @@ func (m *model) Canon() []byte {
 	for _, k := range sortedKeys(m.creatorIn) {
 		fmt.Fprintf(&b, "c:%s=%s;", k, m.creatorIn[k])
 	}
+	for _, k := range sortedKeys(m.rps) {
+		fmt.Fprintf(&b, "s:%s=%s;", k, m.rps[k].RatString())
+	}
 	// stake, rate, maxStake, updates are functions of the store or only widen tolerances monotonically;
 	// maxStake/updates are included so that equal canon => equal tolerances.
 	for _, f := range sortedKeys(m.maxStake) {
@@ -155,6 +162,10 @@ func (m *model) releaseBlock() {
 	}
 	for d, r := range m.rate {
 		m.released[d].Add(m.released[d], r)
+		if m.rps[d] == nil {
+			m.rps[d] = new(big.Rat)
+		}
+		m.rps[d].Add(m.rps[d], new(big.Rat).SetFrac(r, S))
 		for f, s := range m.stake {
 			if s.Sign() == 0 {
 				continue
@@ -532,7 +543,28 @@ func (d *Driver) classifyFailure(e *mc.Env, s *mc.State, f string, pending sdk.C
 			}
 		}
 	}
+	if len(d.rpsAboveExact(e, s)) > 0 {
+		return "reward-collector-short/per-share-accumulator-above-exact"
+	}
 	return "reward-collector-short/all-farmers-within-rounding"
+}
+
+// rpsAboveExact reports the denominations whose stored per-share accumulator exceeds the exact value
+// (the accumulator may only lose value by its 18-decimal truncation, never gain).
+func (d *Driver) rpsAboveExact(e *mc.Env, s *mc.State) []string {
+	m := s.Model.(*model)
+	var bad []string
+	for _, r := range e.Farm.GetRewardRules(s.Ctx, poolID) {
+		impl := new(big.Rat).SetFrac(r.RewardPerShare.BigInt(), new(big.Int).Exp(big.NewInt(10), big.NewInt(18), nil))
+		exact := m.rps[r.Reward]
+		if exact == nil {
+			exact = new(big.Rat)
+		}
+		if impl.Cmp(exact) > 0 {
+			bad = append(bad, fmt.Sprintf("%s: stored %s > exact %s", r.Reward, impl.FloatString(20), exact.FloatString(20)))
+		}
+	}
+	return bad
 }
 
 func permutations(xs []string) [][]string {
@@ -618,6 +650,9 @@ func (d *Driver) check(e *mc.Env, s *mc.State) []mc.Finding {
 	}
 
 	// ---- C06 ----
+	for _, b := range d.rpsAboveExact(e, s) {
+		fs = append(fs, mc.F("C06/per-share-accumulator-above-exact", "%s (the accumulator may only be truncated, never rounded up)", b))
+	}
 	// settle lazily-accounted releases on a fork, then compare budget bookkeeping with the exact reference
 	fk := s.Fork()
 	settlePaid := sdk.NewCoins()
